@@ -79,6 +79,15 @@ def _big(rng, n):
     sem = G.gen(rng, curated=False, nt=nt, nc=rng.randint(3, 4), nsw=2, nspk=k, features='full', vanish=0.25, wmi='none',
                 empty='none', probes=False, shanks=False)
     sem['spike_templates'] = [j % nt for j in range(k)]
+    # the spikes next to a batch boundary (first / last spike, 50000*m - 1, 50000*m, 50000*m + 1) must have a depth that
+    # is not NaN: a spike the loop forgets keeps its NaN initial value, which a vanishing feature row would hide
+    # (seeded change C09-m5 was missed once for exactly that reason)
+    edge = {0, n - 1} | {b + e for b in range(50000, n + 1, 50000) for e in (-1, 0, 1)}
+    for pos in sorted({j % k for j in edge if 0 <= j < n}):
+        row = sem['features']['data'][pos][0]
+        while not any(x > 0 for x in row):
+            row = G.feature_row(rng, len(row), vanish=False)
+        sem['features']['data'][pos][0] = row
     return {'kind': 'depths_big', 'inp': {'sem': sem, 'n': n, 'render': {'id_dtype': rng.choice(ID_DTYPES), 'tmpl_dtype': 'float32',
                                                                        'vec2d': False}}}
 
